@@ -69,7 +69,7 @@ def main(argv=None):
     a = ap.parse_args(argv)
     if a.harvest:
         os.environ["QV_NO_CORPUS"] = "1"          # the table measures the generators alone
-    respath = os.path.join(VERIF, "seeded", "RESULTS.json")
+    respath = os.environ.get("QV_SEEDED_RESULTS") or os.path.join(VERIF, "seeded", "RESULTS.json")   # override: parallel partial runs, merged afterwards
     results = {}
     if os.path.exists(respath):
         results = {r["id"]: r for r in json.load(open(respath))}
